@@ -16,6 +16,8 @@
 import SparseV.Lemmas.Validate
 import SparseV.Lemmas.Loops
 import SparseV.Lemmas.NoInternal
+import SparseV.Lemmas.Gen.Bcast
+import SparseV.Lemmas.Gen.Slicing
 namespace SparseV.C18
 open SparseV SparseV.Validate
 
@@ -36,15 +38,15 @@ NumPy does — `i ∉ [-dim, dim)` — and then with `IndexError`. -/
 theorem rejects_iff_numpy_rejects_index (i dim : Int) :
     (Gen.checkIndexInt i dim = .error Err.index ↔ ¬ (-dim ≤ i ∧ i < dim)) ∧
     (∀ e, Gen.checkIndexInt i dim = .error e → e = Err.index) := by
-  simp only [Gen.checkIndexInt]
+  rw [Gen.checkIndexInt_eq, Ref.checkIndexInt]
   constructor
-  · grind
-  · intro e; split <;> (try split) <;> simp <;> grind
+  · split <;> simp [*]
+  · intro e; split <;> simp; exact fun h => h.symm
 
 example : Gen.normalizeAxisInt (-3) 2 = .error Err.value ∧ Gen.normalizeAxisInt (-2) 2 = .ok 0 := by
-  simp [Gen.normalizeAxisInt]
+  simp [Gen.normalizeAxisInt_eq, Ref.normalizeAxisInt]
 example : Gen.checkIndexInt 3 3 = .error Err.index ∧ Gen.checkIndexInt (-3) 3 = .ok () := by
-  simp [Gen.checkIndexInt]
+  simp [Gen.checkIndexInt_eq, Ref.checkIndexInt]
 
 /-- **rejects_iff_numpy_rejects_axes.** An axis tuple of a reduction is accepted iff every entry is in `[-ndim, ndim)` and no
 axis is named twice after normalisation (NumPy: "duplicate value in 'axis'"); every rejection is a `ValueError`. -/
@@ -115,14 +117,14 @@ theorem rejects_iff_numpy_rejects_broadcast (s1 s2 : List Nat) :
     simp only [reduceCtorEq, false_iff, not_exists, not_and]
     intro p hp h1 h2
     have := List.all_eq_true.mp hall p hp
-    simp only [Gen.bcastOk, decide_eq_true_eq, Bool.false_eq_true, not_false_eq_true, and_true] at this
+    simp only [Gen.bcastOk_iff, and_true] at this
     omega
   · rename_i hall
     simp only [true_iff]
     simp only [List.all_eq_true, Classical.not_forall] at hall
     obtain ⟨p, hp, hbad⟩ := hall
     refine ⟨p, hp, ?_⟩
-    simp only [Gen.bcastOk, decide_eq_true_eq, Bool.false_eq_true, not_false_eq_true, and_true, not_or] at hbad
+    simp only [Gen.bcastOk_iff, and_true, not_or] at hbad
     omega
 
 example : bshape2 [2, 3] [3] false = .ok [2, 3] ∧ bshape2 [2, 3] [2] false = .error Err.value := by
